@@ -110,9 +110,6 @@ pub fn property_post(v: &RefValue, oc: &OptCase, route: bool, op: u8) -> Result<
 	if back != value {
 		return Err(format!("after {what}: re-parsing the printed text {text:?} gives a different value"));
 	}
-	if let Err(m) = crate::objquery::check_all_objects(&value, &model, &["", "a", "\u{0}"]) {
-		return Err(format!("after {what}: {m}"));
-	}
 	Ok(what)
 }
 
@@ -186,7 +183,7 @@ pub fn run(ctx: &mut Ctx) {
 	}
 	if ctx.wants("P_postprocessed_values") {
 		let n = ctx.pick(150_000, 1_000_000);
-		let fam = Fam::new("P_postprocessed_values", "proptest: random value (numbers include magnitudes outside double range) built on a random route, then post-processed through the public mutating API (canonicalize, canonicalize_with twice, sort of every object, in-place mutation through as_*_mut, take + wrap + canonicalize) and printed under a random option record; the printed text is accepted by the reference automaton, denotes the tree the accessors read back, re-parses to an equal value, and every object still answers key queries like a linear scan; non-trivial = the value contains a number and an object", false);
+		let fam = Fam::new("P_postprocessed_values", "proptest: random value (numbers include magnitudes outside double range) built on a random route, then post-processed through the public mutating API (canonicalize, canonicalize_with twice, sort of every object, in-place mutation through as_*_mut, take + wrap + canonicalize) and printed under a random option record; the printed text is accepted by the reference automaton, denotes the tree the accessors read back, re-parses to an equal value; non-trivial = the value contains a number and an object", false);
 		let fam = run_proptest(
 			ctx,
 			fam,
